@@ -804,3 +804,52 @@ def flatten_program(prog: Program) -> tuple[dict[str, list[ast.stmt]], Inliner]:
         if len(inl.log) > before:
             new_bodies[q] = body
     return new_bodies, inl
+
+
+# ---------------------------------------------------------------------------------------------- definitional unfolding
+MISSING_MOD = "haiway.types.missing"
+
+
+def unfold_missing_predicates(prog: Program) -> list[str]:
+    """is_missing(x) -> x is MISSING;  not_missing(x) -> x is not MISSING;  when_missing(x, value=y) -> (y if x is MISSING else x)
+    everywhere outside haiway.types.missing, for simple x.  The three predicates are *defined* as these identity tests and
+    C20.4 verifies the definitions on every run, so rules stated over `is MISSING` see through them."""
+    log: list[str] = []
+    for mod in prog.modules.values():
+        if mod.name == MISSING_MOD:
+            continue
+        names = {local: full.rsplit(".", 1)[-1] for local, full in mod.imports.items() if full.rsplit(".", 1)[-1] in ("is_missing", "not_missing", "when_missing") and ("types.missing" in full or full.startswith("haiway.types") or full.startswith("haiway."))}
+        if not names:
+            continue
+        missing_name = next((local for local, full in mod.imports.items() if full.rsplit(".", 1)[-1] == "MISSING"), None)
+        count = 0
+
+        class T(ast.NodeTransformer):
+            def visit_Call(self, n: ast.Call):  # noqa: N802
+                nonlocal count, missing_name
+                self.generic_visit(n)
+                if not (isinstance(n.func, ast.Name) and n.func.id in names) or not n.args or not _is_simple(n.args[0]) or isinstance(n.args[0], ast.Starred):
+                    return n
+                kind = names[n.func.id]
+                if missing_name is None:
+                    missing_name = "MISSING"
+                    mod.extra_imports["MISSING"] = MISSING_MOD + ".MISSING"
+                    mod.imports.setdefault("MISSING", MISSING_MOD + ".MISSING")
+                const = ast.Name(id=missing_name, ctx=ast.Load())
+                x = n.args[0]
+                if kind in ("is_missing", "not_missing") and len(n.args) == 1 and not n.keywords:
+                    new: ast.AST = ast.Compare(left=clone(x), ops=[ast.Is() if kind == "is_missing" else ast.IsNot()], comparators=[const])
+                elif kind == "when_missing":
+                    y = n.args[1] if len(n.args) == 2 and not n.keywords else (n.keywords[0].value if len(n.args) == 1 and len(n.keywords) == 1 and n.keywords[0].arg == "value" else None)
+                    if y is None:
+                        return n
+                    new = ast.IfExp(test=ast.Compare(left=clone(x), ops=[ast.Is()], comparators=[const]), body=y, orelse=clone(x))
+                else:
+                    return n
+                count += 1
+                return ast.fix_missing_locations(ast.copy_location(new, n))
+
+        mod.tree = T().visit(mod.tree)
+        if count:
+            log.append(f"{mod.name}: {count} missing-predicate call(s) unfolded")
+    return log
